@@ -9,6 +9,7 @@
 From Coq Require Import ZArith Reals List Lra Lia Bool Arith.
 From Dadi Require Import Base.Num Base.NumR Model.Projection Proofs.ProjBase Proofs.ProjH Proofs.ProjTensor Proofs.ProjSpectrum
   Proofs.ProjFoldConsistent Proofs.ProjFoldMask.
+From Dadi Require Model.ProjectionCheck Proofs.ProjMaskOnly.
 Import ListNotations.
 Local Open Scope R_scope.
 
@@ -102,6 +103,18 @@ Theorem C08_mask_spreads_exactly : forall d ax n m sh (mk : tens bool d) idx,
   <-> exists j, (j <= n)%nat /\ tget false d (upd ax j idx) mk = true /\ 0 < H n m j (nth ax idx 0%nat).
 Proof. exact mask_spreads_exactly. Qed.
 Print Assumptions C08_mask_spreads_exactly.
+
+(** the mask-only evaluation the correspondence check runs for sample sizes in the hundreds (window test only, no
+    binomials) IS the mask of the model [project], defined exactly when the model is: any dimension, folded or not *)
+Theorem C08_mask_only_evaluation_is_model_mask : forall d ns folded sh (x : tens R d) (mk : tens bool d) x' mk',
+  wf d sh x -> wf d sh mk -> Forall (fun L => 1 <= L)%nat sh ->
+  project d ns folded x mk = Some (x', mk') -> ProjectionCheck.project_mask d ns folded mk = Some mk'.
+Proof. exact ProjMaskOnly.project_mask_is_project. Qed.
+Theorem C08_mask_only_evaluation_refuses_with_model : forall d ns folded sh (x : tens R d) (mk : tens bool d),
+  wf d sh x -> wf d sh mk -> Forall (fun L => 1 <= L)%nat sh ->
+  project d ns folded x mk = None -> ProjectionCheck.project_mask d ns folded mk = None.
+Proof. exact ProjMaskOnly.project_mask_refuses_with_project. Qed.
+Print Assumptions C08_mask_only_evaluation_is_model_mask.
 
 (** folded spectra: project works on unfold(fs) and folds the result; the ingredient that makes this
     consistent (fold(project fs) = project(fold fs)) is that projection commutes with reversing all axes.
